@@ -286,14 +286,14 @@ def r3_accumulation(ctx):
     fn = ctx.fn(CO, "Composite._multiply")
     calls = [norm(c) for c in ast.walk(fn) if isinstance(c, ast.Call) and norm(c.func) == "composite.add"]
     loops = [norm(l.iter) for l in ast.walk(fn) if isinstance(l, ast.For)]
-    ctx.check(calls == ["composite.add(expr, component.proportion * other)"] and loops == ["self.components.items()"], CO, "Composite._multiply",
+    ctx.form(calls == ["composite.add(expr, component.proportion * other)"] and loops == ["self.components.items()"], CO, "Composite._multiply",
               "every species count is multiplied by the factor", detail={"calls": calls, "loops": loops})
     fn = ctx.fn(CO, "Composite._add")
     calls = [norm(c) for c in ast.walk(fn) if isinstance(c, ast.Call) and norm(c.func) == "composite.add"]
     loops = [norm(l.iter) for l in ast.walk(fn) if isinstance(l, ast.For)]
     ok = calls.count("composite.add(expr, component.proportion)") == 2 and "composite.add(other.expr, other.proportion)" in calls and \
         loops == ["self.components.items()", "other.components.items()"]
-    ctx.check(ok, CO, "Composite._add", "all species of both operands are accumulated with their counts", detail={"calls": calls, "loops": loops})
+    ctx.form(ok, CO, "Composite._add", "all species of both operands are accumulated with their counts", detail={"calls": calls, "loops": loops})
     # constructor: every solved species is taken over; dict form goes through add()
     fn = ctx.fn(CO, "Composite.__init__")
     s = norm(fn)
@@ -365,7 +365,12 @@ def r4_species(ctx):
         ctx.holds(EL, "Element.get_isotope", "mass = isotope mass + charge number * electron mass", detail="Quantity(M, Units.ATOMIC_MASS) + Quantity(ion, '[m_e]')")
     elif isinstance(A_, ast.BinOp) and all(isinstance(x, ast.Call) and dotted_name(x.func) == "Quantity" for x in (A_.left, A_.right)) or \
             (isinstance(A_, ast.Call) and dotted_name(A_.func) == "Quantity"):
-        ctx.violated(EL, "Element.get_isotope", "mass = isotope mass + charge number * electron mass", detail=got_A[:200], expected=want_A[:200])
+        # a differently spelled but possibly equivalent term: only a changed unit or a missing electron term is evidence
+        units = sorted({norm(c.args[1]) for c in ast.walk(A_) if isinstance(c, ast.Call) and dotted_name(c.func) == "Quantity" and len(c.args) == 2})
+        if isinstance(A_, ast.BinOp) and isinstance(A_.op, ast.Add) and units == ["'[m_e]'", "Units.ATOMIC_MASS"] and norm(ION) in norm(A_.right):
+            ctx.unrecognised(EL, "Element.get_isotope", "mass = isotope mass + charge number * electron mass", f"mass term spelled differently: {got_A[:160]}")
+        else:
+            ctx.violated(EL, "Element.get_isotope", "mass = isotope mass + charge number * electron mass", detail=got_A[:200], expected=want_A[:200])
     else:
         ctx.unrecognised(EL, "Element.get_isotope", "mass = isotope mass + charge number * electron mass", f"mass term {got_A[:160]}")
     err = [q for q in ps if q.status == "raise" and any(norm(t.resolved) == f"str({norm(ISO)}) not in {ROW}.A" and t.extra for t in q.tests())]
